@@ -2,10 +2,21 @@
 
 package sim
 
+import "runtime/debug"
+
 const RaceBuild = false
 
 func raceDisable()     {}
 func raceEnable()      {}
 func drainPools()      {}
-func raceWorkerInit()  {}
-func betweenEpisodes() {}
+// Episodes should not depend on what the process ran before: every episode
+// starts from empty sync.Pools (see pools.go). Two full collections per episode
+// would do the same but double the cost of a check.
+func raceWorkerInit() {}
+
+func betweenEpisodes() {
+	old := debug.SetGCPercent(-1) // no collection may start while the pools are aged by hand
+	poolCleanup()
+	poolCleanup()
+	debug.SetGCPercent(old)
+}
